@@ -30,6 +30,12 @@ func verifC20_TrafficObjects() {
 		switch kind {
 		case 0:
 			verifAssume(live[o] == nil) // creating over a live name is not a lifecycle step
+			// Init may panic (recovered by the entity): the name is configured, so the object
+			// is live all the same, and a later change of its spec is an update of it
+			inst.panicInit = verifBool("op.initPanics")
+			if inst.panicInit {
+				verifCover("init-panicked")
+			}
 			if o == 0 {
 				_, err = tc.CreateTrafficGate(ns, e)
 			} else {
